@@ -96,6 +96,7 @@ def main():
 
     n_runs = 0
     stats = {"happy": 0, "conv": 0, "noconv": 0}
+    acc = {"max_ratio": 0.0, "bad": []}
     for trial in range(150):
         n = rnd.choice([1, 2, 3, 5, 8, 16])
         kind = rnd.choice(["herm", "damped", "general"])
@@ -104,10 +105,11 @@ def main():
         v = torch.randn(n, dtype=dt)
         if rnd.random() < 0.15:             # eigenvector start: breakdown in the first iteration
             v = torch.linalg.eig(m)[1][:, 0].clone()
+        v = v * rnd.choice([1.0, 1.0, 1e-3, 1e-6, 1e3])      # the solver normalises v: flags must not depend on |v|
         etol = rnd.choice([1e-4, 1e-8, 1e-12])
         ntol = rnd.choice([1e-4, 1e-8, 1e-12])
         kdim = rnd.choice([1, 2, 3, n, n + 2, 30])
-        where = f"n={n} kind={kind} is_hermitian={herm} exp_tol={etol} norm_tol={ntol} max_krylov_dim={kdim} seed={seed} trial={trial}"
+        where = f"|v|={v.norm().item():.3g} n={n} kind={kind} is_hermitian={herm} exp_tol={etol} norm_tol={ntol} max_krylov_dim={kdim} seed={seed} trial={trial}"
         try:
             res, loc, calls = traced_impl(mod, m, v, herm, etol, ntol, kdim)
         except Exception as e:
@@ -135,6 +137,14 @@ def main():
         if bad:
             print(f"REPRODUCED: krylov_exp_impl: {bad} ({where})")
             return 1
+        if res.converged and not torch.isnan(res.result).any():
+            # the property's own clause, checked natively: a converged result is within 10 tol |v| (+ rounding)
+            ref = torch.linalg.matrix_exp(m) @ v
+            dev = (res.result - ref).norm().item()
+            budget = 10 * max(etol, ntol) * v.norm().item() + 1e-9 * v.norm().item()
+            acc["max_ratio"] = max(acc["max_ratio"], dev / budget)
+            if dev > budget:
+                acc["bad"].append(f"|result - exp(A)v| = {dev:.3g} > 10*tol*|v| = {budget:.3g} ({where})")
         stats["happy" if res.happy_breakdown else ("conv" if res.converged else "noconv")] += 1
         # public entry
         try:
@@ -150,6 +160,11 @@ def main():
             if res.converged:
                 print(f"REPRODUCED: krylov_exp raised RecursionError although the solver converged ({where})")
                 return 1
+    if acc["bad"]:
+        print(f"REPRODUCED: krylov_exp_impl reports convergence but the result is inaccurate: {acc['bad'][0]} "
+              f"({len(acc['bad'])} such runs)")
+        return 1
+    print(f"  accuracy of converged results: max deviation / (10 tol |v|) = {acc['max_ratio']:.3g}")
     print(f"NOT-REPRODUCED: {n_runs} random runs ({stats}) satisfy the convergence-flag clauses")
     return 0
 
